@@ -604,7 +604,7 @@ RW_GEN = {"depth": 3, "floats": True, "fact": False, "sgn": False, "brackets": F
 # swarm: for some runs all literals and exponents come from a tiny pool, so that equal
 # coefficients / equal exponents / repeated constants (the coincidences many rule bugs
 # need) are common instead of vanishingly rare
-_POOL = {"nums": None, "exps": None}
+_POOL = {"nums": None, "exps": None, "long_literals": False}
 
 
 def rw_number(rng):
@@ -619,8 +619,9 @@ def rw_number(rng):
         return str(rng.randint(13, 60))
     if r < 0.93:
         return rng.choice(["0.00002", "0.0001", "0.000001", "0.1"])
-    if r < 0.94:
-        # constants whose text is longer than 64 characters
+    if r < 0.94 and _POOL.get("long_literals"):
+        # constants whose text is longer than 64 characters (C04 only: its comparison is exact;
+        # under C09's tolerance rule magnitudes of 1e+-70 only produce under/overflow noise)
         return rng.choice(["1" + "0" * 69 + "7", "0." + "0" * 70 + "7", "123456789" * 8])
     return rng.choice(["0", "1", "100", "144"])
 
@@ -827,6 +828,7 @@ class RewriteSim:
     def draw_config(self, rng, prop, tier, stratum, idx):
         cfg = {"prop": prop, "stratum": stratum, "eq_seed": rng.randrange(2 ** 32)}
         _POOL["nums"] = _POOL["exps"] = None
+        _POOL["long_literals"] = (prop == "C04")
         if rng.random() < 0.4:
             _POOL["nums"] = [rng.choice(["0.5", "0.25", "1.5", "2.5", "0.1", "0.75", "0.001", "0.000001"])
                              if rng.random() < 0.4
